@@ -197,3 +197,49 @@ def padding_invariant(REC, prop, fname, f, A, N, seed, kinds, fill, args=(), rto
             m &= ~np.eye(N, dtype=bool)
             ok = ok and bool(np.all(g[m] == fill) if np.isfinite(fill) else np.all(np.isinf(g[m])))
     REC.check(prop, fname, 'padding_invariant', bool(ok), {'A': A, 'N': N, 'positions': idx, 'args': list(args)}, ('padded_to_%d' % N,))
+
+
+def vector_forms_agree(REC, prop, fname, f, args, kwargs, which, rtol=1e-9):
+    """The docstrings call every per-node vector "Nx1": a caller may hold it as a column (N,1) or a row (1,N) array.
+    `which` names the positional index (int) or keyword (str) of a 1-D array argument.  Whenever the routine RETURNS
+    for the 2-D form, the result must be the 1-D result up to reshaping (a routine that raises for it is not judged)."""
+    kwargs = dict(kwargs or {})
+    args = list(args)
+    v = np.asarray(args[which] if isinstance(which, int) else kwargs[which])
+    if v.ndim != 1 or v.size < 2:
+        return
+    try:
+        ref = f(*[a.copy() if isinstance(a, np.ndarray) else a for a in args], **kwargs)
+    except CaseTimeout:
+        raise
+    except Exception:  # noqa
+        return
+    for form, shp in (('column', (-1, 1)), ('row', (1, -1))):
+        a2 = list(args)
+        k2 = dict(kwargs)
+        if isinstance(which, int):
+            a2[which] = v.reshape(shp).copy()
+        else:
+            k2[which] = v.reshape(shp).copy()
+        try:
+            got = f(*[a.copy() if isinstance(a, np.ndarray) else a for a in a2], **k2)
+        except CaseTimeout:
+            raise
+        except Exception:  # noqa
+            REC.skip(prop, fname, 'vector_form_independent')
+            continue
+        REC.check(prop, fname, 'vector_form_independent', _same_flat(ref, got, rtol),
+                  {'form': form, 'vector': v, 'args': [a for i, a in enumerate(args) if i != which], 'result_1d': ref, 'result': got}, ('form:' + form,))
+
+
+def _same_flat(a, b, rtol):
+    if isinstance(a, (list, tuple)):
+        return isinstance(b, (list, tuple)) and len(a) == len(b) and all(_same_flat(x, y, rtol) for x, y in zip(a, b))
+    try:
+        a = np.asarray(a, dtype=float)
+        b = np.asarray(b, dtype=float)
+    except Exception:  # noqa
+        return True
+    if a.size != b.size:
+        return False
+    return close(a.ravel(), b.ravel(), rtol=rtol, atol=1e-12)
